@@ -9,6 +9,7 @@ import (
 
 	"github.com/Oneledger/protocol/action"
 	"github.com/Oneledger/protocol/data/balance"
+	netwkDeleg "github.com/Oneledger/protocol/data/network_delegation"
 	sv "github.com/Oneledger/protocol/zz_sv"
 )
 
@@ -93,7 +94,7 @@ func SV_C12_mature_undelegation() {
 // which the delegation pool holds the active total plus an arbitrary donation
 // slack, and pending entries may already exist at the maturity height.
 //
-// sv:bounds 2 delegators with arbitrary active amounts, pending undelegations and pending reward withdrawals at heights {now, now+4} and reward balances; pool = sum of active + arbitrary slack >= 0; the kind is a choice; payload names any party (who signs), amount any integer in any currency name; mempool-admitted regime
+// sv:bounds 2 delegators with arbitrary active amounts, pending undelegations and pending reward withdrawals at heights {now, now+4} and reward balances; pool = sum of active + arbitrary slack >= 0; the shared store object's selected prefix (in-memory residue of the previous handler) active or pending; the kind is a choice; payload names any party (who signs), amount any integer in any currency name; mempool-admitted regime
 // sv:outside several operations per block (one inductive step: an existing pending entry at the maturity height stands for an earlier operation of the same block); more than 2 delegators
 // sv:goal after a successful transaction: pool - sum(active) is unchanged (the pool mirrors the active set); undelegate moves exactly the amount from active to pending[now+4] and out of the pool; withdraw-rewards moves exactly the amount (at most the reward balance) from the reward balance to the pending withdrawal of now+4; reinvest moves it from the reward balance into active and the pool; delegate moves it from the balance into active and the pool; nobody else's records change
 func SV_C12_handler_step() {
@@ -111,6 +112,10 @@ func SV_C12_handler_step() {
 	default:
 		raw, signers = svBuildDelegReinvest(e)
 	}
+	// in-memory residue: the delegation store is one shared object whose selected
+	// prefix is whatever the previous handler (of any transaction) left
+	residue := []netwkDeleg.DelegationPrefixType{netwkDeleg.ActiveType, netwkDeleg.PendingType}[sv.Choice("residue.prefix", 2)]
+	e.beforeDeliver = func() { e.app.Context.netwkDelegators.Deleg.WithPrefix(residue) }
 	r := e.step(raw, signers, true)
 	if r.resp.Code != 0 {
 		sv.Cover(true, "refused")
